@@ -14,7 +14,7 @@ R13 = 'semantic values are ghost identifiers (R13): std::variant/optional/tuple,
 OWNED = {r'stack/capacity:': ['C06', 'C12'], r'stack/capacity-shape:': ['C06', 'C12', 'C07']}
 
 L_KNUTH = "Knuth's LR(1) theorem (closed states + goto kernels + table read off the items + driver executing the table => accepts exactly L(G)) is not mechanised; analyze_states (the work-list loop), closure, transitions and the four FIRST/nullable functions are each under contract with their callees replaced by abstract contracts over ghost tables, i.e. each does the textbook step given what the others return - that the memoised recursion reaches the least fixed point is not claimed (finding D4)"
-GLUE = 'grammar_info glue: analyze_term / analyze_nterm / analyze_eof / analyze_error_recovery_token / make_symbol / analyze_rule are under contract (unit glue) against abstract DSL objects whose accessors are under contract in units terms, rules, values; the pack expansions that call them once per term / nonterminal / rule (analyze_terms, analyze_nterms, analyze_rules), create_lexer and init_reductors (R18) are outside the extraction'
+GLUE = 'grammar_info glue: the constructor\'s step order, analyze_terms / analyze_nterms / analyze_rules (their pack expansions lowered to loops, R21), analyze_term / analyze_nterm / analyze_eof / analyze_error_recovery_token / make_symbol / analyze_rule, create_lexer and init_reductors are under contract (units glue, reductors) against abstract DSL objects whose accessors are under contract in units terms, rules, values; the tuple builders terms() / nterms() / rules() / nterm::operator() and std::tuple / std::get themselves are outside the extraction'
 
 PROPS = {
     'C01': dict(units=['state_analyzer', 'state_analyzer@small', 'driver', 'stdex', 'glue', 'charnames'],
